@@ -180,6 +180,10 @@ class Ctx:
         for f in self.work.glob("*"):
             if f.is_file():
                 f.unlink()
+        rd = VERIF / "replays" / prop
+        if rd.exists():
+            for f in rd.glob("*.json"):
+                f.unlink()
         self.known = KnownFindings(prop)
         self.obligations: list[dict] = []
         self.violations: list[dict] = []
